@@ -122,6 +122,11 @@ func c01Gen(g *core.Gen, emit func(*p2Case)) {
 		}
 		genP2Deviations(g, cfg, true, d, mk(cfg, 1))
 	}
+	// interactions: low-entropy content x several goroutines x names in sub-directories
+	for _, class := range []string{"dupslice", "periodic", "trailzero", "lookalike"} {
+		cfg := scen.P2Config{Sizes: []int{13, 8, 6}, Slice: 4, Blocks: 4, Class: class, G: 3, Names: []string{"d/e/f0", "f 1", "d/f2"}}
+		genP2Deviations(g, cfg, false, 2, mk(cfg, 3))
+	}
 	dup := scen.P2Config{Sizes: []int{9, 9}, Slice: 4, Blocks: 3, Class: "uniq", DupFile: true}
 	genP2Deviations(g, dup, true, 1, mk(dup, 1))
 	coll := scen.P2Config{Sizes: []int{27, 20}, Slice: 8, Blocks: 3, Class: "crccollide"}
